@@ -778,6 +778,8 @@ async fn fhaand(
             h0h1_for_j[ll].0 = (hash_kixj.as_bytes()[31] & 1 != 0) ^ sj;
             h0h1_for_j[ll].1 = (hash_kixj_delta.as_bytes()[31] & 1 != 0) ^ sj ^ yi[ll];
             vi[ll] ^= sj;
+            #[cfg(feature = "__verif")]
+            crate::verif::probe("haand_pad", &[sj as u8]);
         }
         send_to(channel, j, "haand", &h0h1_for_j)
             .await
